@@ -294,6 +294,16 @@ pub fn generate(_ctx: &mut Ctx, seed: u64, i: usize, kind: &str, always_malforme
             _ => src += &format!("{}{tag} </block>{}\n", lang.open, lang.close),
         }
     }
+    // one case in eight: such an empty-content block with the same rule BEFORE everything else (what is decided for a block
+    // without content - no key, nothing to match, an unusable rule value that is not even looked at - must not be remembered
+    // for the blocks after it)
+    if kind != "affects" && rng.chance(1, 8) {
+        let first = match rng.below(2) {
+            0 => format!("{}{tag}</block>{}\n", lang.open, lang.close),
+            _ => format!("{}{tag} and </block>{}\n", lang.open, lang.close),
+        };
+        src = first + &src;
+    }
     // one case in six: an exact copy of everything written so far (same tags, same attributes, same content) appended to the
     // file, and one case in six: the same text again as a second file - a result, a key set or a compiled rule remembered
     // from one block must not leak into an identical block elsewhere (its own position, its own verdict)
